@@ -1,11 +1,17 @@
 //! One module per property: workload + monitors + evidence.
+pub mod c01;
 pub mod c02;
+pub mod c03;
+pub mod c13;
 
 use crate::run::Tier;
 
 pub fn dispatch(id: &str, tier: Tier) -> Option<i32> {
     match id {
+        "C01" => Some(c01::run(tier)),
         "C02" => Some(c02::run(tier)),
+        "C03" => Some(c03::run(tier)),
+        "C13" => Some(c13::run(tier)),
         _ => None,
     }
 }
